@@ -472,33 +472,56 @@ def loop_local_decls(fn, cfg, body):
     return out
 
 
+def _path_feasible(fn, cfg, path):
+    """cheap infeasibility filter: boolean locals with a known literal value along the path must agree with the branch taken"""
+    env = {}
+    for a, b in zip(path, path[1:]):
+        for e in cfg.blocks[a]["el"]:
+            n = fn.nodes.get(e)
+            if n is None:
+                continue
+            if n["k"] == "DeclStmt":
+                for d in n["decls"]:
+                    if d.get("ty") == "bool" and d.get("init") is not None and strip(d["init"])["k"] == "CXXBoolLiteralExpr":
+                        env[d["id"]] = bool(strip(d["init"])["val"])
+            elif n["k"] == "BinaryOperator" and n["op"] == "=":
+                l = strip(kids(n)[0])
+                if l["k"] == "DeclRefExpr" and l["decl"].get("ty") == "bool":
+                    r = strip(kids(n)[1])
+                    if r["k"] == "CXXBoolLiteralExpr":
+                        env[l["decl"]["id"]] = bool(r["val"])
+                    else:
+                        env.pop(l["decl"]["id"], None)
+        for t, tr, nd in edge_facts(cfg, a, b):
+            nd = strip(nd)
+            if nd["k"] == "DeclRefExpr" and nd["decl"]["id"] in env and env[nd["decl"]["id"]] != tr:
+                return False
+    return True
+
+
 def stuck_cycle(fn, cfg, head, body, eff):
-    """a cyclic path head -> head inside the loop on which nothing that outlives the iteration is written:
+    """a feasible cyclic path head -> head inside the loop on which nothing that outlives the iteration is written:
     once taken it repeats forever (definite non-termination). Returns the path or None."""
     ll = loop_local_decls(fn, cfg, body)
-    # the loop variable of a for-init lives outside the natural loop body; declared-in-body only
     effect = {b: block_effects(fn, cfg, b, eff, ll) for b in body}
     if effect[head]:
         return None
-    prev = {}
-    q = []
-    for s in cfg.succ[head]:
-        if s in body and not effect.get(s) and s != head:
-            prev[s] = head
-            q.append(s)
-        elif s == head:
-            return [head, head]
-    while q:
-        x = q.pop(0)
-        for s in cfg.succ[x]:
-            if s == head:
-                path = [head, x]
-                while prev[x] != head:
-                    x = prev[x]
-                    path.append(x)
-                path.append(head)
-                return list(reversed(path))
-            if s in body and s not in prev and not effect.get(s):
-                prev[s] = x
-                q.append(s)
-    return None
+    found = []
+
+    def dfs(x, path, seen, budget=[4000]):
+        if found or budget[0] <= 0:
+            return
+        budget[0] -= 1
+        for s_ in cfg.succ[x]:
+            if s_ == head:
+                p = path + [head]
+                if _path_feasible(fn, cfg, p):
+                    found.append(p)
+                    return
+                continue
+            if s_ in body and s_ not in seen and not effect.get(s_):
+                dfs(s_, path + [s_], seen | {s_})
+                if found:
+                    return
+    dfs(head, [head], {head})
+    return found[0] if found else None
